@@ -240,6 +240,10 @@ def run(w, rep, tier):
     # regular branch must be taken (rule shared with C07.euler; seeded C02-5 widened the band to 2.6 degrees)
     from .c07 import check_euler_band_rule
     check_euler_band_rule(w, rep, "C02.flow")
+    # SE_2(3) exp hands the rotation block of its matrix to SO3.from_Matrix: every Shepperd selection must be a right
+    # inverse and divide by the largest pivot (rules shared with C07; seeded C02-6 divided one entry by the wrong pivot)
+    from .c07 import check_from_matrix
+    check_from_matrix(w, rep, R="C02.flow", RV="C02.flow", RS="C02.flow")
     check_rn_nilpotent(w, rep)
     check_direct_product_exp(w, rep)
     rep.floor("C02.ode", 11)
